@@ -362,13 +362,57 @@ class Interp(ExprMixin, LoopMixin, CallMixin):
         return o
 
     # ---------------------------------------------------------------- calls
-    def call_function(self, fi, args=(), kwargs=None, self_obj=None, node=None, cls_obj=None, closure=None):
+    NEUTRAL_DECORATORS = {'staticmethod', 'classmethod', 'property', 'cached_property', 'abstractmethod', 'contextmanager',
+                          'wraps', 'overload', 'setter', 'getter', 'final', 'override'}
+
+    def _effective_decorators(self, fi):
+        """the decorators of fi that change what a call does: [(kind, node)] with kind 'cache' | 'user' | 'unknown'"""
+        out = []
+        for d in fi.node.decorator_list:
+            base = d.func if isinstance(d, ast.Call) else d
+            name = base.attr if isinstance(base, ast.Attribute) else base.id if isinstance(base, ast.Name) else None
+            if name in self.NEUTRAL_DECORATORS:
+                continue
+            if name in ('lru_cache', 'cache'):
+                out.append(('cache', d))
+                continue
+            r = self.prog.resolve_expr(fi.module, base) if hasattr(self.prog, 'resolve_expr') else None
+            out.append(('user' if r and r[0] == 'func' else 'unknown', d))
+        return out
+
+    def _decorated(self, fi, node):
+        """the callable a decorated module-level function is bound to: its decorators applied once (innermost first)"""
+        key = ('decorated', fi.qualname)
+        if key in self.modcache:
+            return self.modcache[key]
+        cur = FuncV(fi)
+        cur.raw = True
+        for kind, d in reversed(self._effective_decorators(fi)):
+            if kind == 'user':
+                dec = self.eval_in_module(fi.module, d)
+                cur = self.call_value(dec, [cur], {}, node)
+            elif kind == 'cache':
+                w = FuncV(fi)
+                w.raw = True
+                w.memo = cur
+                cur = w
+            else:
+                self.note_unknown(node, f'decorator {ast.unparse(d)[:40]} of {fi.name}')
+        self.modcache[key] = cur
+        return cur
+
+    def call_function(self, fi, args=(), kwargs=None, self_obj=None, node=None, cls_obj=None, closure=None, raw=False):
         kwargs = dict(kwargs or {})
         args = list(args)
         summ = self.an.summaries.get(fi.short)
         if summ is not None:
             self.event('call', node, callee=fi.short, args=args, kwargs=kwargs, summary=True, self_obj=self_obj)
             return summ(self, fi, args, kwargs, node, self_obj)
+        if not raw and fi.node.decorator_list and self._effective_decorators(fi):
+            if self_obj is None and cls_obj is None and closure is None and fi.cls is None:
+                # a decorated module-level function: what is called is the result of its decorators
+                return self.call_value(self._decorated(fi, node), args, kwargs, node)
+            self.note_unknown(node, f'decorated method or nested function {fi.name}: decorator not applied')
         if not getattr(self, '_starting_generator', False) and _is_generator(fi.node):
             return GenCallV(fi, args, kwargs, self_obj, cls_obj, closure)
         self._starting_generator = False
